@@ -133,8 +133,16 @@ func analyse(x *Exec) *RunResult {
 
 	// ---- C18: directory semantics (families that carry an expectation)
 	if x.sc.Family == "kqdir" && !aborted {
-		for _, v := range checkKqDir(x) {
-			add(v)
+		if x.sc.Cfg.Lagfree {
+			for _, v := range checkKqDir(x) {
+				add(v)
+			}
+			cnt["kqdir_lagfree_runs"]++
+		} else {
+			for _, v := range checkKqDirBurst(x) {
+				add(v)
+			}
+			cnt["kqdir_burst_runs"]++
 		}
 	}
 	// errors on benign histories
@@ -487,4 +495,101 @@ func trimAll(x *Exec, ps []string) []string {
 		o = append(o, strings.ReplaceAll(p, x.root+"/", ""))
 	}
 	return o
+}
+
+// checkKqDirBurst is the safety half of the directory semantics for histories
+// without pauses: no Create for an entry that existed when the watch was added
+// (and was not re-created since), never more Creates for a name than it had
+// incarnations, no event for a name that never existed, and a Create for every
+// entry that was created during the run and still exists at the end.
+func checkKqDirBurst(x *Exec) []Violation {
+	if len(x.W) == 0 || x.W[0].W == nil {
+		return nil
+	}
+	wr := x.W[0]
+	type wdir struct{ spelling, real string }
+	var dirs []wdir
+	for _, c := range x.H {
+		if c.Kind == OpAdd && c.Class == "" && c.Phase == "setup" && c.Real != "" {
+			dirs = append(dirs, wdir{filepath.Clean(c.Path), c.Real})
+		}
+	}
+	spell := func(real string) (string, bool) {
+		d := filepath.Dir(real)
+		for _, w := range dirs {
+			if w.real == d {
+				return w.spelling + "/" + filepath.Base(real), true
+			}
+		}
+		return "", false
+	}
+	abs := func(p string) string { return x.root + "/" + p }
+	ever := map[string]bool{}   // spelled names that existed at some time
+	incarn := map[string]int{}  // incarnations that began during the body
+	exists := map[string]bool{} // current existence, by spelled name
+	born := func(p string, body bool) {
+		if s, ok := spell(abs(p)); ok {
+			ever[s] = true
+			exists[s] = true
+			if body {
+				incarn[s]++
+			}
+		}
+	}
+	gone := func(p string) {
+		if s, ok := spell(abs(p)); ok {
+			exists[s] = false
+		}
+	}
+	for _, w := range x.WorldLog {
+		if w.Err != "" {
+			continue
+		}
+		body := w.Task != "main"
+		switch w.Op.K {
+		case OpCreate, OpMkdir, OpMkfifo, OpSymlink, "opencreate":
+			if !w.PreExisted {
+				born(w.Op.P, body)
+			}
+		case OpWrite:
+			if !w.PreExisted {
+				born(w.Op.P, body)
+			}
+		case OpUnlink, OpRmdir, OpRmRF:
+			gone(w.Op.P)
+		case OpRename:
+			gone(w.Op.P)
+			born(w.Op.P2, body) // overwriting counts as a new incarnation of the target name
+		case OpLink:
+			born(w.Op.P2, body)
+		}
+	}
+	creates := map[string]int{}
+	for _, d := range wr.D {
+		if !ever[d.Name] {
+			isDir := false
+			for _, w := range dirs {
+				if w.spelling == d.Name {
+					isDir = true
+				}
+			}
+			if !isDir {
+				return []Violation{{Kind: "kq-event-mismatch", Watcher: 0, Site: "burst:unknown-name", Detail: fmt.Sprintf("event %s for a name that never existed in a watched directory", strings.ReplaceAll(d.Str, x.root+"/", ""))}}
+			}
+		}
+		if d.Op&mCreate != 0 {
+			creates[d.Name]++
+		}
+	}
+	for n, c := range creates {
+		if c > incarn[n] {
+			return []Violation{{Kind: "kq-duplicate-create", Watcher: 0, Site: "burst", Detail: fmt.Sprintf("%d Create events for %q, which came into existence %d times while watched", c, strings.TrimPrefix(n, x.root+"/"), incarn[n])}}
+		}
+	}
+	for n, e := range exists {
+		if e && incarn[n] > 0 && creates[n] == 0 {
+			return []Violation{{Kind: "kq-missing-create", Watcher: 0, Site: "burst", Detail: fmt.Sprintf("%q was created while its directory was watched and still exists, but no Create was delivered", strings.TrimPrefix(n, x.root+"/"))}}
+		}
+	}
+	return nil
 }
